@@ -132,3 +132,11 @@ def r7(cx):
     rule_rotation_seals_segment(cx)
     rule_one_memtable_per_segment(cx)
     rule_replay_window(cx)
+
+
+@rule("C03", "C03.R8", "commits of the next session are appended directly behind the last complete record")
+def r8(cx):
+    """Stray bytes left between the last complete record and the writer's position turn every later record of that
+    segment into garbage at the following recovery while LATER segments still replay: a non-prefix."""
+    rule_open_after_repair(cx)
+    rule_append_after_validated_tail(cx)
